@@ -719,7 +719,7 @@ def _baseline_fns():
     return _BASE_FNS[0]
 
 
-def check_new_writers(ctx, rule, adts, free=("rng",)):
+def check_new_writers(ctx, rule, adts, free=("rng",), harmless=None):
     """Who-may-write rule over public entry points.  The rule modules review the functions of the pinned tree (by name, after renames
     are undone and new private helpers are expanded into their callers).  A public method or trait-impl method of a structure that
     the reviewed tree does not have is a new entry point: nothing in the module has looked at it.  It is accepted when every write it
@@ -753,6 +753,8 @@ def check_new_writers(ctx, rule, adts, free=("rng",)):
                 via = w.get("via") or ()
                 if via and via[0] in reviewed_pub:
                     continue
+                if harmless is not None and harmless(adt, fld, w):
+                    continue        # a write this property cannot be broken by (stated by the calling rule module)
                 if w["how"] == "borrow":
                     # a borrow is a write only if the reference leaves the method
                     if not ("&mut" in (m.ret_ty or "") or "IterMut" in (m.ret_ty or "") or "Drain" in (m.ret_ty or "")):
